@@ -186,6 +186,9 @@ func init() {
 		for _, hdr := range []string{"+1+1", "-1-1", "+101", "01+1", " 101", "1 01", "0x01", "1e01", "\u0661\u0661", "0101"} {
 			free = append(free, ck("bitcoin-script:"+hdr+"51"), ck("bitcoin-script:"+hdr+"76a914"+strings.Repeat("ab", 20)+"88ac"))
 		}
+		for _, bad := range []string{"ZZ", "GG", "5Z", "Z5", "__", "[]", "^^", "``", "\\\\", "gg", "zz", "@@", "//", "::"} { // data digits just outside the hexadecimal alphabet
+			free = append(free, ck("bitcoin-script:0101"+bad), ck("bitcoin-script:010151"+bad+"52"))
+		}
 		for _, d := range [][]byte{{0x51}, bytes.Repeat([]byte{0x6a}, 9)} {
 			t := refaddr.EncodeBIP276(refaddr.BIP276{Prefix: "bitcoin-script", Version: 1, Network: 1, Data: d})
 			c8 := t[len(t)-8:]
